@@ -171,7 +171,8 @@ def unit_eval(item):
     from rl4co.data.dataset import TensorDictDataset
     from rl4co.tasks.eval import evaluate_policy
 
-    _, skey, tier, seed, method, mkw, bs = item
+    _, skey, tier, seed, method, mkw, bs = item[:7]
+    order = item[7] if len(item) > 7 else None
     spec = ALL_SPECS[skey]
     p = Partial()
     insts = spec.instances("quick", seed)
@@ -180,14 +181,27 @@ def unit_eval(item):
         td = spec.td(inst)
         groups.setdefault(tuple((k, tuple(v.shape[1:])) for k, v in sorted(td.items())), []).append((iid, inst, td))
     g = max(groups.values(), key=len)
-    g = [g[i] for i in E.pick_indices(len(g), 4 if bs == 3 else 3)]
+    want = 4 if bs == 3 else 3
     env = spec.env(g[0][1])
     pol = make("am", env, 0)
+    if skey == "cvrp":
+        # variable-length episodes: make sure the data set mixes the shortest and the longest greedy episodes of the alphabet
+        with torch.no_grad(), Seam().active():
+            E._set_bs(env, len(g))
+            a = pol(env.reset(torch.cat([x[2] for x in g], 0)), env, decode_type="greedy")["actions"]
+        lens = [int((row != 0).nonzero().max()) + 1 for row in a]
+        by = sorted(range(len(g)), key=lambda i: (lens[i], i))
+        idx = [by[0], by[-1]] + [i for i in E.pick_indices(len(g), want) if i not in (by[0], by[-1])]
+        g = [g[i] for i in idx[:want]]
+    else:
+        g = [g[i] for i in E.pick_indices(len(g), want)]
+    if order is not None:  # every order of the data set: which loader batch holds the longest episode must not matter
+        g = [g[i] for i in order]
     data = torch.cat([x[2] for x in g], 0)
     ds = TensorDictDataset(data)
     oi = [spec.oracle_inst(x[1]) for x in g]
     cfg = f"{method}|{sorted(mkw.items())}|bs={bs}"
-    rec = dict(kind="eval", spec=skey, method=method, kwargs=mkw, batch_size=bs, instances=[dict(instance_id=x[0], instance=x[1]) for x in g])
+    rec = dict(kind="eval", spec=skey, method=method, kwargs=mkw, batch_size=bs, order=order, instances=[dict(instance_id=x[0], instance=x[1]) for x in g])
     env_name = skey.partition(":")[0]
     import rl4co.tasks.eval as ev_mod
 
@@ -267,6 +281,11 @@ def main(tier):
         for method, mkw in METHODS:
             for bs in (1, 2, 3):
                 items.append(("eval", skey, tier, seed, method, mkw, bs))
+                # variable-length episodes: all orders of the data set (all assignments of instances to loader batches)
+                if skey == "cvrp" and (tier == "thorough" or method in ("greedy", "multistart_greedy", "augment_dihedral_8")):
+                    n = 4 if bs == 3 else 3
+                    for order in list(itertools.permutations(range(n)))[1:]:
+                        items.append(("eval", skey, tier, seed, method, mkw, bs, list(order)))
     if only:
         items = [i for i in items if only in str(i)]
     rep.merge_all(pmap(unit, items))
@@ -277,5 +296,5 @@ def replay(rec):
     if rec["kind"] in ("aug", "aug_cost"):
         p = unit_aug(("aug", "quick", rec.get("seed", 0)))
         return bool(p.violations), "; ".join(v["msg"] for v in p.violations[:2]) or "augmentations are isometries"
-    p = unit_eval(("eval", rec["spec"], "quick", 0, rec["method"], rec["kwargs"], rec["batch_size"]))
+    p = unit_eval(("eval", rec["spec"], "quick", 0, rec["method"], rec["kwargs"], rec["batch_size"], rec.get("order")))
     return bool(p.violations), "; ".join(v["msg"] for v in p.violations[:2]) or "evaluation reports true best-of-k"
